@@ -7,6 +7,12 @@ Monitors
   integrity/provenance of every delivered input and that all feeding modules already ran;
 * a reference model (rv.c16_model: source map, Kahn, handler/ext conformance) predicts report vs. wiring error;
   a returned `ExecutionReport` is cross-checked against what the stubs saw;
+* histories on ONE diagram + ONE executor (`case["phases"]`): after the executor has run, further modules / attempted wires /
+  handler registrations / other external inputs arrive and it runs again; the model re-analyses the diagram as it stands at
+  every execute(), so anything the executor carries over from an earlier run (wire index, inputs, verdicts) shows as a
+  `...+later-phase` violation;
+* handler stubs return their ports in program order, which the generators permute against the declaration order
+  (outputs are identified by name; payload tokens name the port they were returned for);
 * a `sys.monitoring` LINE hit counter on `DiagramExecutor.execute` turns a non-terminating scheduling loop into a
   violation with a purely logical bound (no wall-clock);
 * PY_START reach counters on the anchored functions.
@@ -24,16 +30,22 @@ TECHNIQUE = ("runtime monitoring: acceptance oracle at connect(), invariant-chec
              "provenance tokens, executable wiring/Kahn reference model for the outcome, report cross-check, "
              "sys.monitoring LINE step counter on the scheduling loop")
 RULE = ("cases = sweeps (21x21 PortType pairs at connect; declared-port x returned-label; port x external-label; every "
-        "digraph on <=3 modules x every insertion order; fixed fault scenarios) then seeded random diagrams "
-        "(valid / fault-injected / unconstrained); non-trivial = >=2 modules and >=1 accepted wire and the executor "
+        "digraph on <=3 modules x every insertion order, one-shot and grown wire by wire under one executor that runs after every "
+        "connect; 21x21 pairs of output ports returned in reversed order; fixed fault scenarios incl. diagrams changed between two "
+        "executions) then seeded random diagrams (valid / fault-injected / unconstrained; ~30% as multi-phase histories on one "
+        "executor, ~60% with permuted handler return order); non-trivial = >=2 modules and >=1 accepted wire and the executor "
         "was run; distinct = (per-module in/out degree in insertion order, multiset of (source, destination) integrity pairs "
-        "over the wires, model problem tags, mislabel kinds, outcome per run, static-check flag)")
+        "over the wires, model problem tags per phase, mislabel kinds, outcome per run, static-check flag)")
 ASSUMPTIONS = [
     "handlers return a dict (or None) and do not raise or mutate the inputs mapping they receive",
     "a module without declared outputs needs no handler (it is recorded as executed); 'missing handler' means a module with outputs and no handler",
     "handler port-set mismatches (missing/extra keys, None return) and external inputs addressed to unknown modules/ports are not judged for report-vs-error; every delivered value is still checked",
     "at connect()/require_flow_to() any exception counts as 'not accepted'; from execute() only WiringError counts as a wiring error",
     "a schedulable diagram with conforming handlers and valid external inputs must return a report (a wiring error there is a violation)",
+    "every execute() is judged against the diagram, handlers and external inputs as they stand when it is entered: modules/wires added "
+    "through add_module()/connect() after an earlier execute() on the same executor count",
+    "a handler's outputs are identified by port name; the order of the keys in the returned dict carries no meaning",
+    "which callable runs after register_module() is called again for the same module is recorded, not judged",
     "diagrams are built through add_module()/connect() only (no wires forged into diagram.wires), so enforce_static_checks on/off must not change any verdict",
 ]
 
